@@ -387,6 +387,10 @@ MOD_SNIPPETS = [
     "import os, sys as _s\nfrom os import path as {n}\n",
     "__all__ = ['{n}']\n",
     "lambda_{n} = lambda x: x\n",
+    # clauses get_children walks after the body (99a6d9c): try-else, finally, loop-else
+    "try:\n{b}except Exception:\n    pass\nelse:\n{b}finally:\n{b}",
+    "for _j in ():\n{b}else:\n{b}",
+    "while False:\n{b}else:\n{b}",
     # expression statements: the builder's visit_Expr hands their value to the extensions
     "{n}()\n",
     "'''a string statement'''\n",
